@@ -74,7 +74,9 @@ impl Instrument for StageProbe {
 pub fn gen_batch_case(check: &str, seed: u64, family: &str, tier: Tier, with_file: bool) -> Case {
     if family == "energy" {
         // vehicles with shared prediction caches: the batch must equal the isolated, cache-less runs
-        let mut c = super::c08::gen_case(seed, "schedule", tier);
+        // (half of them with a scheduling point at every allocation and every atomic load of the code under test:
+        // the windows of lock-free cache protocols are a few instructions wide)
+        let mut c = super::c08::gen_case(seed, if seed % 2 == 0 { "dense" } else { "schedule" }, tier);
         c.check = check.to_string();
         c.family = family.to_string();
         let mut r2 = Rng::new(seed ^ fnv64("two-callers"));
@@ -385,7 +387,7 @@ impl Check for C06 {
         "C06"
     }
     fn families(&self, _tier: Tier) -> Vec<&'static str> {
-        vec!["schedule", "schedule", "faults", "schedule", "energy", "schedule", "faults", "cli", "schedule", "sink-faults", "noisy-neighbour"]
+        vec!["schedule", "energy", "faults", "schedule", "energy", "schedule", "faults", "cli", "schedule", "sink-faults", "noisy-neighbour"]
     }
     fn default_runs(&self, tier: Tier) -> u64 {
         match tier {
